@@ -348,15 +348,14 @@ class Check:
                     if not reproduced:
                         fam = self.native("family", o.clause, None)
                         self.native_evals += int(fam.get("evaluations", 0) or 0)
-                        if fam.get("status") == "fail":
+                        if fam.get("status") == "fail" and not fam.get("finding"):
+                            # (a family failure tagged as a listed finding is a different, already recorded defect: it does not
+                            #  reproduce THIS obligation's failure)
                             nat = fam
                             inputs = fam.get("inputs")
                             reproduced = True
                         elif nat is None:
                             nat = fam
-                # known finding?
-                if reproduced and self.matches_known(open_known, o, nat):
-                    continue
                 path = self.write_replay(o, inputs, nat, reproduced)
                 self.violations.append((o.name, path, reproduced))
                 tail = "" if reproduced else " no-failing-input-found"
@@ -367,7 +366,7 @@ class Check:
                 # unknown: try the bounded native family before giving up
                 fam = self.native("family", o.clause, None) if o.clause else {"status": "none"}
                 self.native_evals += int(fam.get("evaluations", 0) or 0)
-                if fam.get("status") == "fail" and not self.matches_known(open_known, o, fam):
+                if fam.get("status") == "fail" and not fam.get("finding"):
                     path = self.write_replay(o, fam.get("inputs"), fam, True)
                     self.violations.append((o.name, path, True))
                     print("FAILED obligation=%s function=%s verdict=%s (refuted natively)" % (o.name, o.function, o.verdict))
